@@ -27,50 +27,81 @@ def _model(cfg, expect=None, coverage=False):
                    coverage=m.coverage)
 
 
+FAMILIES = ["EC-P256", "EC-P384", "EC-P521", "RSA", "OKP-Ed25519", "OKP-X25519"]
+JWK_CLASSES = ["none:-"] + ["pub:" + f for f in FAMILIES] + ["priv:" + f for f in FAMILIES] + ["sym:oct"]
+REFUSED_TODAY = {"EC-P256", "EC-P384", "EC-P521", "RSA", "OKP-Ed25519"}   # must mirror MCRefusedToday in MCKeyStore.tla
+
+
 def _opkey(s):
     return (s["a"],) + tuple(str(s.get(k, "")) for k in ("jwk", "nc", "b"))
 
 
+def _features(b):
+    """What a sequence exercises: every operation class, and every ordered pair / triple of actions on the SAME key
+    (life-cycle patterns such as sign..delete..create..sign or sign..re-link..sign come out as triples)."""
+    fs = set(("op",) + _opkey(s) for s in b)
+    per_key = {}
+    for s in b:
+        for k in (s.get("k"), s.get("to")):
+            if k:
+                per_key.setdefault(k, []).append(s["a"])
+    for acts in per_key.values():
+        for i in range(len(acts)):
+            for j in range(i + 1, len(acts)):
+                fs.add(("pair", acts[i], acts[j]))
+                for l in range(j + 1, len(acts)):
+                    fs.add(("triple", acts[i], acts[j], acts[l]))
+    return fs
+
+
 def _select(behaviours, n, rnd):
-    """Seeded selection that covers every (action, argument class) first, then fills up randomly."""
+    """Seeded greedy cover of the features, then the sequences with most distinct actions."""
     behaviours = sorted(behaviours, key=lambda b: json.dumps(b, sort_keys=True))
     rnd.shuffle(behaviours)
     chosen, covered, rest = [], set(), []
     for b in behaviours:
-        ks = set(_opkey(s) for s in b)
-        # a sequence is interesting when it uses keys after creating them
-        if not ks <= covered:
+        fs = _features(b)
+        if len(chosen) < n and not fs <= covered:
             chosen.append(b)
-            covered |= ks
+            covered |= fs
         else:
             rest.append(b)
-    # prefer sequences with many distinct actions
     rest.sort(key=lambda b: -len(set(s["a"] for s in b)))
     top = rest[: max(0, (n - len(chosen)) * 3)]
     rnd.shuffle(top)
     chosen += top[: max(0, n - len(chosen))]
-    return chosen
+    return chosen, len(covered)
 
 
 def _fixed_scripts():
     """Scripts that do not depend on the bounds of the generation config: every operation on one key, an aliased key, and
     every key-name class on both backends."""
     allops = [dict(a="New", k="k1"), dict(a="SignJWT", k="k1")]
-    allops += [dict(a="SignJWS", k="k1", jwk=j) for j in ("none", "public", "private", "symmetric")]
+    allops += [dict(a="SignJWS", k="k1", jwk=j) for j in JWK_CLASSES]
     allops += [dict(a=a, k="k1") for a in ("SignDPoP", "SignLD", "SignTx", "Decrypt", "Resolve")] + [dict(a="List")]
     allops += [dict(a="New", k="k2"), dict(a="Delete", k="k1"), dict(a="LinkKey", k="k1", to="k2")]
     allops += [dict(a=a, k="k1") for a in ("SignJWT", "SignDPoP", "SignLD", "Resolve")]
-    allops += [dict(a="SignJWS", k="k1", jwk="private"), dict(a="List")]
+    allops += [dict(a="SignJWS", k="k1", jwk="priv:EC-P256"), dict(a="List")]
+    # life cycle of ONE key id: use, delete (must stop working), create again under the same kid, use; re-link a used kid
+    life = [dict(a="New", k="k1")] + [dict(a=a, k="k1") for a in ("SignJWT", "SignDPoP", "Decrypt")] + [dict(a="SignJWS", k="k1", jwk="none:-")]
+    life += [dict(a="Delete", k="k1"), dict(a="SignDeleted", k="k1"), dict(a="New", k="k1")]
+    life += [dict(a=a, k="k1") for a in ("SignJWT", "SignDPoP", "Resolve", "SignLD")] + [dict(a="SignJWS", k="k1", jwk="none:-")]
+    life += [dict(a="New", k="k2"), dict(a="SignJWT", k="k2"), dict(a="LinkKey", k="k1", to="k2"), dict(a="SignJWT", k="k1"), dict(a="SignDPoP", k="k1"),
+             dict(a="Delete", k="k2"), dict(a="SignDeleted", k="k1"), dict(a="SignDeleted", k="k2"), dict(a="New", k="k2"), dict(a="SignJWT", k="k2"),
+             dict(a="LinkKey", k="k1", to="k2"), dict(a="SignJWT", k="k1"), dict(a="List")]
     names = [dict(a="New", k="k1")]
     for nc in NAME_CLASSES:
         names += [dict(a="LinkName", nc=nc), dict(a="UseName", b="fs", nc=nc), dict(a="UseName", b="vault", nc=nc)]
     names += [dict(a="SignJWT", k="k1"), dict(a="List")]
-    return [dict(id="fixed-all-operations", steps=allops), dict(id="fixed-name-classes", steps=names)]
+    return [dict(id="fixed-all-operations", steps=allops), dict(id="fixed-key-life-cycle", steps=life), dict(id="fixed-name-classes", steps=names)]
 
 
 def _sig(v):
     if v["kind"] == "secret-leak":
-        return dict(kind=v["kind"], channel=v.get("channel"), op=v.get("op"))
+        sig = dict(kind=v["kind"], channel=v.get("channel"), op=v.get("op"))
+        if v.get("jwk"):
+            sig["jwk"] = v["jwk"]   # class of the caller supplied jwk header that was published
+        return sig
     if v["kind"] == "namespace-escape":
         return dict(kind=v["kind"], name_class=v.get("name_class"), backend=v.get("backend"))
     return dict(kind=v["kind"], op=v.get("op"))
@@ -97,18 +128,22 @@ def run(prop, tier, seed, replay=None):
     m, d = _model("KeyStore.quick.cfg" if quick else "KeyStore.thorough.cfg", coverage=not quick)
     models.append(d)
     if not quick:
-        for a in ("New", "SignJWT", "SignJWS", "SignDPoP", "SignLD", "SignTx", "Decrypt", "Resolve", "List", "Delete", "LinkKey", "LinkName", "UseName"):
+        for a in ("New", "SignJWT", "SignJWS", "SignDPoP", "SignLD", "SignTx", "Decrypt", "Resolve", "List", "Delete", "SignDeleted", "LinkKey", "LinkName", "UseName"):
             if not m.coverage.get(a):
                 raise Inconclusive("vacuity: action %s never fired in %s" % (a, d["cfg"]))
+    # descriptive variants of the current tree (1:1 with the open known findings) and vacuity guards for every invariant
     models.append(_model("KeyStore.descriptive.cfg", expect="NamespaceConfined")[1])
+    models.append(_model("KeyStore.descriptive.jwk.cfg", expect="NoCallerSecretEchoed")[1])
     models.append(_model("KeyStore.deviant.cfg", expect="NoSecretInAnyChannel")[1])
+    models.append(_model("KeyStore.cache.cfg", expect="SignatureBoundToKid")[1])
+    models.append(_model("KeyStore.jwkfam.cfg", expect="NoCallerSecretEchoed")[1])
     # 2. behaviours from the permissive model
     g, gd = _model("KeyStore.gen.cfg" if quick else "KeyStore.gen.thorough.cfg")
     gd["behaviours"] = len(g.printed)
     models.append(gd)
     if len(g.printed) < 50:
         raise Inconclusive("TLC generated only %d behaviours" % len(g.printed))
-    chosen = _select(g.printed, 400 if quick else 3000, rnd)
+    chosen, nfeatures = _select(g.printed, 400 if quick else 3000, rnd)
     scripts = _fixed_scripts() + [dict(id="b%05d" % i, steps=b) for i, b in enumerate(chosen)]
     # 3. the real node
     try:
@@ -137,12 +172,23 @@ def run(prop, tier, seed, replay=None):
         sc = by_id[r["id"]]
         for s, o in zip(sc["steps"], r["ops"]):
             opkeys.add(_opkey(s))
-            key = s["a"] + ":" + o["outcome"].split(" ")[0]
+            key = s["a"] + ":" + ("n" if s["a"] == "List" else o["outcome"].split(" ")[0])
             outcomes[key] = outcomes.get(key, 0) + 1
         for v in r["violations"]:
             rep.violation(_sig(v), dict(property=prop, signature=_sig(v), violation=v, input=dict(seed=seed, scripts=[sc])))
     if ninc <= max(1, len(results) // 50):
         rep.inconclusive = []
+    # which secret jwk families does the real SignJWS refuse? (the descriptive model assumes REFUSED_TODAY)
+    refused_real = set()
+    for r in results:
+        if r["id"] == "fixed-all-operations":
+            for st, o in zip(by_id[r["id"]]["steps"], r["ops"]):
+                j = st.get("jwk", "")
+                if st["a"] == "SignJWS" and j.split(":")[0] in ("priv", "sym") and "signed" not in o["outcome"]:
+                    refused_real.add(j.split(":")[1])
+    if refused_real != REFUSED_TODAY:
+        rep.notes.append("DRIFT: SignJWS refuses secret jwk headers of families %s, the descriptive model assumes %s"
+                         % (sorted(refused_real), sorted(REFUSED_TODAY)))
     for dn, n in sorted(drift.items())[:6]:
         rep.notes.append("DRIFT: %s (x%d)" % (dn, n))
     need = {"httpResponse", "jwsHeader", "token", "didDocument", "sqlRow", "auditLog", "log", "fileName"}
@@ -162,6 +208,8 @@ def run(prop, tier, seed, replay=None):
                samples=samples, scripts_replayed=len(results), behaviours_available=len(g.printed), bytes_scanned=scanned,
                bytes_scanned_per_channel=channels, signatures_verified=sigs, audit_records_scanned=audit,
                distinct_operation_classes=len(opkeys), operation_outcomes=outcomes, name_classes=len(NAME_CLASSES),
+               jwk_header_classes=len(JWK_CLASSES), secret_jwk_families_refused_by_the_code=sorted(refused_real),
+               sequence_features_covered=nfeatures,
                canary_forms=["raw", "hex", "HEX", "base64", "base64 raw", "base64url", "base64url raw", "base64 at 3 alignments",
                              "decimal", "PEM body lines", "DER hex", "DER raw"],
                models=models, states=sum(x["states"] for x in models), transitions=sum(x["transitions"] for x in models),
